@@ -306,7 +306,7 @@ func posaReplay(routerName, cfgName string) {
 				f.Hist = g.hist[:j]
 				local = append(local, f)
 				ok = false
-				abandoned = len(g.hist) - j - 1 + len(g.edges)
+				abandoned = len(g.edges)
 				break
 			}
 		}
